@@ -201,7 +201,9 @@ def run_random(spec, ctx):
             else:
                 ctx.nontrivial(case)
         elif kind == "scaling":
-            k = rng.choice(gen.SCALES + [1.0, 1, 2, 3, 0.75])
+            k = rng.choice(gen.SCALES + [1.0, 1, 2, 3, 0.75, 2.0 ** -30, 2.0 ** -34, 2.0 ** -40, 2.0 ** 20, 2.0 ** -30])
+            if k < 1e-6 or k > 1e5:
+                ctx.count("scalings_by_tiny_or_huge_factors")
             if rng.random() < 0.15:
                 k = np.float64(k)
             s = S([list(base[0]), list(base[1])])
@@ -395,6 +397,7 @@ def reach(counters, tier, info):
         out.append({"name": f"tuples violating exactly the rule {rule}", "observed": c, "required": 100,
                     "ok": c >= 100})
     for name, key, need in [("malformed inputs", "malformed", 400 * k), ("scalings", "scalings", 800 * k),
+                            ("scalings by 2^-40 .. 2^-30 or 2^20", "scalings_by_tiny_or_huge_factors", 150 * k),
                             ("score homogeneity checks", "homogeneity_checked", 500 * k),
                             ("equivalence pairs", "equiv_pairs", 1500 * k), ("nicknames", "nicknames", 1500 * k)]:
         c = counters.get(key, 0)
